@@ -1002,7 +1002,8 @@ func ext۰proto۰Marshal(fr *frame, args []value) value {
 	}
 	st.blobs = append(st.blobs, blob)
 	id := len(st.blobs)
-	return tuple{[]value{uint8(0xfb), uint8('P'), uint8('B'), uint8(id >> 16), uint8(id >> 8), uint8(id)}, iface{}}
+	// 0xfe terminates the token so that its last byte is never JSON white space
+	return tuple{[]value{uint8(0xfb), uint8('P'), uint8('B'), uint8(id >> 16), uint8(id >> 8), uint8(id), uint8(0xfe)}, iface{}}
 }
 
 // encoding/json.Marshal: the identity token, except that a NaN or infinite float
@@ -1101,10 +1102,10 @@ func ext۰proto۰Unmarshal(fr *frame, args []value) value {
 		return iface{}
 	}
 	bad := func() value { return fr.errorValue("proto: cannot parse invalid wire-format data") }
-	if len(b) != 6 {
+	if len(b) != 7 {
 		return bad()
 	}
-	var raw [6]byte
+	var raw [7]byte
 	for i, x := range b {
 		c, ok := x.(uint8)
 		if !ok {
@@ -1112,7 +1113,7 @@ func ext۰proto۰Unmarshal(fr *frame, args []value) value {
 		}
 		raw[i] = c
 	}
-	if raw[0] != 0xfb || raw[1] != 'P' || raw[2] != 'B' {
+	if raw[0] != 0xfb || raw[1] != 'P' || raw[2] != 'B' || raw[6] != 0xfe {
 		return bad()
 	}
 	id := int(raw[3])<<16 | int(raw[4])<<8 | int(raw[5])
